@@ -1797,6 +1797,22 @@ def concatenate(
         newpulse.cache_filter_function(omega, which=which)
         return newpulse
 
+    if not newpulse.basis.iscomplete:
+        # Pulse correlations requested for an incomplete basis. The atomic
+        # control matrices cannot be reused (see above), so compute each
+        # pulse's contribution from scratch
+        seg_idx = [0] + list(accumulate(len(pulse.dt) for pulse in pulses))
+        control_matrix = np.array([
+            numeric.calculate_control_matrix_from_scratch(
+                newpulse.eigvals[start:stop], newpulse.eigvecs[start:stop],
+                newpulse.propagators[start:stop+1], omega, newpulse.basis, newpulse.n_opers,
+                newpulse.n_coeffs[:, start:stop], newpulse.dt[start:stop],
+                t=newpulse.t[start:stop+1], show_progressbar=show_progressbar
+            ) for start, stop in zip(seg_idx[:-1], seg_idx[1:])
+        ])
+        newpulse.cache_filter_function(omega, control_matrix, which=which)
+        return newpulse
+
     # Get the phase factors at the correct times (the individual gate
     # durations) which are just the total phase factors of the pulses cumprod'd
     phases = np.array(
